@@ -141,6 +141,12 @@ def draw_reject(h):
         elif kind.startswith("add_binarizer"):
             free = h._free_labels()
             payload = {"arm": free[0] if free else "fresh-label"}
+        if kind in ("add_dup", "add_none", "add_nan", "add_inf") and h.lp[0] == "ThompsonSampling" \
+                and draw(st.booleans()):
+            # the invalid arm comes with a perfectly valid new binarizer: the call is rejected as a whole
+            payload = dict(payload, binarizer=draw(st.sampled_from([{"kind": "flip"}, {"kind": "parity"},
+                                                                   {"kind": "threshold", "op": "le", "table": [],
+                                                                    "default": 0.5}])))
     elif group == "ws":
         nf = draw(st.integers(2, 3))
         payload = {"features": [[a, draw(st.lists(st.integers(-2, 2), min_size=nf, max_size=nf))] for a in h.arms],
@@ -297,6 +303,10 @@ def reject_call(mab, kind, payload, cfg):
         else:
             q = copy.deepcopy(p["contexts"])
         return (lambda: f(q)), [q]
+    if kind in ("add_dup", "add_none", "add_nan", "add_inf") and p.get("binarizer"):
+        nb = binarizers.make(p["binarizer"])
+        bad = {"add_dup": p.get("arm"), "add_none": None, "add_nan": np.nan, "add_inf": np.inf}[kind]
+        return (lambda: mab.add_arm(bad, nb)), []
     if kind in ("add_dup", "add_with_prob_list"):
         return (lambda: mab.add_arm(p["arm"])), []
     if kind == "rm_with_prob_list":
